@@ -785,6 +785,29 @@ class Model(Object):
         # from cameo ...
         self._populate_solver(pruned)
 
+    def _restore_constraint_terms(
+        self, reaction: Reaction, terms: List[Tuple[str, float, float]]
+    ) -> None:
+        """Give constraints back the terms they lost when a reaction was removed.
+
+        Parameters
+        ----------
+        reaction : cobra.Reaction
+            The reaction whose variables have been created again.
+        terms : list of tuple
+            The name of a constraint and the coefficients it held for the forward
+            and the reverse variable of the reaction.
+
+        """
+        for name, forward_coefficient, reverse_coefficient in terms:
+            if name in self.constraints:
+                self.constraints[name].set_linear_coefficients(
+                    {
+                        reaction.forward_variable: forward_coefficient,
+                        reaction.reverse_variable: reverse_coefficient,
+                    }
+                )
+
     def remove_reactions(
         self,
         reactions: Union[str, Reaction, List[Union[str, Reaction]]],
@@ -841,6 +864,29 @@ class Model(Object):
                                 {reaction: obj_coef},
                                 additive=True,
                             )
+                        )
+
+                    # Constraints other than the mass balances (added with
+                    # `add_cons_vars`) lose the terms of the removed variables.
+                    # They get them back once the reaction's variables exist again.
+                    lost_terms = []
+                    for constraint in self.constraints:
+                        if constraint.name in self.metabolites:
+                            continue
+                        coefficients = constraint.get_linear_coefficients(
+                            [forward, reverse]
+                        )
+                        if coefficients[forward] != 0 or coefficients[reverse] != 0:
+                            lost_terms.append(
+                                (
+                                    constraint.name,
+                                    coefficients[forward],
+                                    coefficients[reverse],
+                                )
+                            )
+                    if lost_terms:
+                        context(
+                            partial(self._restore_constraint_terms, reaction, lost_terms)
                         )
 
                     context(partial(self._populate_solver, [reaction]))
